@@ -335,6 +335,32 @@ def judge_mutation(side, label, verdict, o):
     return []
 
 
+def build_signatures(err):
+    """{signature: first line carrying it} for every distinct compile error of a failed build (order-independent)"""
+    sigs = {}
+    lines = err.splitlines()
+    for l in lines:
+        mm = re.search(r"gen/grpc/\w+/(\w+/\w+\.go):\d+:\d+: (.*)", l)
+        if mm:
+            if mm.group(2).startswith("too many errors"):
+                continue
+            if mm.group(1) == "server/encode_decode.go" and re.match(r"undefined: (p|res)\b", mm.group(2)):
+                sig = "c10/build:response-headers-or-trailers"
+            else:
+                sig = "c10/build:%s: %s" % (mm.group(1), re.sub(r"\b[A-Z]\w*\d+\b", "T", mm.group(2))[:80])
+        elif re.search(r"\.go:\d+:\d+: ", l):
+            if "too many errors" in l:
+                continue
+            sig = "c10/build:" + re.sub(r":\d+:\d+:", ":", l.strip())[:80]
+        else:
+            continue
+        sigs.setdefault(sig, l.strip())
+    if not sigs:
+        last = lines[-1] if lines else "?"
+        sigs["c10/build:" + last[:80]] = last
+    return sigs
+
+
 def run_roundtrip(c, n, per_valid, cap):
     c.cov["rule"] += (" Second half: gRPC designs 0..%d generated with a stand-in protoc, built and driven over a real grpc transport (bufconn): per unary method "
                       "%d valid payload/result pairs (round trip, metadata / header / trailer placement) and up to %d one-site boundary mutations of payload and result "
@@ -359,12 +385,10 @@ def run_roundtrip(c, n, per_valid, cap):
             kind = "rejected" if b.error.startswith("rejected") else "diverges" if b.error.startswith("genrun:") else "failed"
             c.hist("grpc-build", kind)   # a generator child that dies (memory limit, timeout) is the divergence the first half reports
             if kind == "failed":
-                first = next((l for l in b.error.splitlines() if re.search(r"\.go:\d+:\d+:", l)), b.error.splitlines()[-1] if b.error.splitlines() else "?")
-                mm = re.search(r"gen/grpc/\w+/(\w+/\w+\.go):\d+:\d+: (.*)", first)
-                sig = "c10/build:%s: %s" % (mm.group(1), re.sub(r"\b[A-Z]\w*\d+\b", "T", mm.group(2))[:80]) if mm else "c10/build:" + first[:80]
-                if re.search(r"server/encode_decode\.go:\d+:\d+: undefined: (p|res)\b", b.error):
-                    sig = "c10/build:response-headers-or-trailers"
-                c.fail(sig, "gRPC design %d: the generated code does not compile: %s" % (b.index, first[:300]), input={"seed": c.seed, "index": b.index}, design=b.design, actual=b.error[-1500:])
+                # one failure per distinct compile error: `go build` prints the packages in no fixed order, so "the first error"
+                # is not a property of the design (that made this check report a recorded finding under a second name)
+                for sig, line in sorted(build_signatures(b.error).items()):
+                    c.fail(sig, "gRPC design %d: the generated code does not compile: %s" % (b.index, line[:300]), input={"seed": c.seed, "index": b.index}, design=b.design, actual=b.error[-3000:])
             b.cleanup()
             continue
         c.hist("grpc-build", "ok")
